@@ -135,7 +135,8 @@ def main():
     hists = mod.histories(rng, tier if not lean_broken else 'thorough')
     corpus = mod.corpus() if hasattr(mod, 'corpus') else []
     # repaired defects stay in the corpus: their replays must agree with the model from now on
-    corpus = corpus + [k['replay'] for k in load_known(pid) if k.get('status') == 'fixed' and k.get('replay')]
+    corpus = corpus + [k['replay'] for k in load_known(pid) if k.get('status') == 'fixed' and k.get('replay')
+                       and (tier == 'thorough' or k.get('tier') != 'thorough')]
     allh = corpus + hists
     diffs = []
     core.PAIR_CHECK = getattr(mod, 'pair_check', None)
